@@ -52,9 +52,110 @@ def crash_images(d, ev, bs, full_subset_limit=10, k=2):
             out = emit('after-event-%d-lost-%s' % (i, ','.join(str(window[j][0]) for j in sorted(ls)) or 'none'), img)
             if out: yield out
 
+def parse_trace2(path):
+    """trace with two tracked files: -> [(dev, kind, off, data)]"""
+    ev = []
+    try:
+        for l in open(path):
+            p = l.split()
+            if not p: continue
+            dev = 1 if p[0].endswith('2') else 0
+            k = p[0].rstrip('2')
+            if k == 'W': ev.append((dev, 'W', int(p[1]), bytes.fromhex(p[3]) if len(p) > 3 else b'\0' * int(p[2])))
+            elif k == 'S': ev.append((dev, 'S', 0, b''))
+    except OSError:
+        pass
+    return ev
+
+def crash_images2(imgs, ev, limit=10, k=2):
+    """two devices; an fsync makes the pending writes of *that* device durable.  yields (label, [image0, image1])"""
+    durable = [bytearray(imgs[0]), bytearray(imgs[1])]
+    window = []
+    seen = set()
+    def emit(label, st):
+        h = hashlib.sha1(st[0]).digest() + hashlib.sha1(st[1]).digest()
+        if h in seen: return None
+        seen.add(h); return (label, [bytes(st[0]), bytes(st[1])])
+    o = emit('start', durable)
+    if o: yield o
+    for i, (dev, kind, off, data) in enumerate(ev):
+        if kind == 'S':
+            keep = []
+            for w in window:
+                if w[1] == dev: durable[dev][w[2]:w[2] + len(w[3])] = w[3]
+                else: keep.append(w)
+            window = keep
+            continue
+        window.append((i, dev, off, data))
+        n = len(window)
+        if n <= limit:
+            subsets = itertools.chain.from_iterable(itertools.combinations(range(n), r) for r in range(n + 1))
+        else:
+            lost = list(itertools.chain.from_iterable(itertools.combinations(range(n), r) for r in range(k + 1)))
+            subsets = lost + [tuple(x for x in range(n) if x not in s_) for s_ in lost]
+        for ls in subsets:
+            ls = set(ls)
+            st = [bytearray(durable[0]), bytearray(durable[1])]
+            for j, (wi, d_, off_, data_) in enumerate(window):
+                if j in ls or off_ + len(data_) > len(st[d_]): continue
+                st[d_][off_:off_ + len(data_)] = data_
+            o = emit('after-event-%d-lost-%s' % (i, ','.join(str(window[j][0]) for j in sorted(ls)) or 'none'), st)
+            if o: yield o
+
+def job_ext(spec, fe):
+    """external journal: the filesystem and the journal device are traced together"""
+    (d, jd), v, c, J = c03.build_case(spec)
+    bs = c['bs']; jsbo = c['jmap'][0] * bs
+    w = fsweep.scratch_worker()
+    p = os.path.join(w, 'c4x.img'); jp = os.path.join(w, 'c4x.jdev'); tl = p + '.trace'
+    argv = [c03.E2FSCK] + (['-y', '-E', 'journal_only'] if fe == 'e2fsck-journal-only' else ['-fy']) + ['-j', jp, p]
+    with open(p, 'wb') as f: f.write(d)
+    with open(jp, 'wb') as f: f.write(jd)
+    if os.path.exists(tl): os.unlink(tl)
+    env = tool_env({'LD_PRELOAD': IOTRACE, 'IOTRACE_PATH': p, 'IOTRACE_PATH2': jp, 'IOTRACE_LOG': tl, 'IOTRACE_FIXED_UUID': '1'})
+    rc, out = run(argv, timeout=60, env=env)
+    F = open(p, 'rb').read(); FJ = open(jp, 'rb').read()
+    ev = parse_trace2(tl)
+    nW = sum(1 for e in ev if e[1] == 'W'); nS = sum(1 for e in ev if e[1] == 'S')
+    chk = [bytearray(d), bytearray(jd)]
+    for dev, kind, off, data in ev:
+        if kind == 'W': chk[dev][off:off + len(data)] = data
+    if bytes(chk[0]) != F or bytes(chk[1]) != FJ:
+        return (spec, fe, ['trace incomplete: replaying the recorded writes does not reproduce the final images'], 0, nW, nS)
+    final = {blk: F[blk * bs:(blk + 1) * bs] for blk, _ in v.writes if blk * bs < len(d)}
+    exempt = set(c['sbblocks'])
+    def blank(img):
+        img = bytearray(img)
+        for blk in exempt: img[blk * bs:(blk + 1) * bs] = b'\0' * bs
+        return bytes(img)
+    Fb = blank(F); bad = []; n = 0
+    for label, (X, XJ) in crash_images2([d, jd], ev):
+        n += 1
+        empty = struct.unpack_from('>I', XJ, jsbo + 0x1C)[0] == 0
+        needs = bool(struct.unpack_from('<I', X, 1024 + 0x60)[0] & 4)
+        if empty or not needs:
+            miss = [blk for blk in final if X[blk * bs:(blk + 1) * bs] != final[blk]]
+            if miss:
+                bad.append('I1 %s: crash state has %s but replayed block(s) %s are not on the filesystem device yet' % (label, 'an empty journal' if empty else 'needs_recovery clear', miss[:4])); continue
+        with open(p, 'wb') as f: f.write(X)
+        with open(jp, 'wb') as f: f.write(XJ)
+        rc2, out2 = run(argv, timeout=60)
+        if 'Superblock checksum does not match' in out2 or 'Bad magic number in super-block' in out2:
+            with open(p, 'wb') as f: f.write(X)
+            rc2, out2 = run([c03.E2FSCK, '-fy', '-b', str(c['backup_sb']), '-B', str(bs), '-j', jp, p], timeout=60)
+        R = open(p, 'rb').read(); RJ = open(jp, 'rb').read()
+        if rc2 == 'TIMEOUT' or (isinstance(rc2, int) and rc2 < 0): bad.append('I2 %s: second recovery exits %s' % (label, rc2)); continue
+        if blank(R) != Fb:
+            diff = [i // bs for i in range(0, len(F), bs) if blank(R)[i:i + bs] != Fb[i:i + bs]][:6]
+            bad.append('I2 %s: recovery re-run on the crash state differs from the uninterrupted run at blocks %s' % (label, diff)); continue
+        if struct.unpack_from('>I', RJ, jsbo + 0x1C)[0] != 0 or struct.unpack_from('<I', R, 1024 + 0x60)[0] & 4:
+            bad.append('I2 %s: after the re-run the journal is not empty / needs_recovery is still set' % label)
+    return (spec, fe, bad, n, nW, nS)
+
 def job(j):
     spec, fe = j
     try:
+        if spec['base'] == 'extj': return job_ext(spec, fe)
         return job1(spec, fe)
     except Exception as e:
         import traceback
@@ -154,6 +255,11 @@ def main(tier, only=None):
                 specs.append({'base': base, 'fmt': fmt, 'txns': [{'items': a}, {'items': b}, c03.TAIL]})
     fes = only or list(FRONT)
     jobs = [(s, fe) for s in specs for fe in fes]
+    # external journal device (filesystem and journal are different files: the flush of the replayed blocks and the journal reset go to different descriptors)
+    for fmt in ('32-v3', '64-none'):
+        for sp in ([D('A', 'B'), {'items': [['R', ['A']], ['D', ['C', 'eB']]]}, c03.TAIL], [big, c03.TAIL], [D('A'), D('B', 'C'), D('A', 'D', 'E', 'F'), c03.TAIL]):
+            for fe in ('e2fsck-journal-only', 'e2fsck-fy'):
+                if not only or fe in only: jobs.append(({'base': 'extj', 'fmt': fmt, 'txns': sp}, fe))
     res = pmap(job, jobs, chunksize=1)
     ncrash = 0; nruns = 0; wins = set()
     for spec, fe, bad, n, nW, nS in res:
